@@ -12,6 +12,9 @@ pub struct Case {
     pub pdu: PduIr,
     pub trailing: Vec<u8>,
     pub strict_max: u32,
+    /// when set, the strict-mode maximum is (PDU length + delta): probes the boundary exactly
+    #[serde(default)]
+    pub strict_delta: Option<i32>,
 }
 
 fn kind(p: &PduIr) -> &'static str {
@@ -131,8 +134,14 @@ fn check(c: &Case, obs: &mut Obs) {
         }
     }
     // strict mode: a PDU longer than the maximum is rejected, non-strict accepts it
-    let max = c.strict_max.clamp(MINIMUM_PDU_SIZE, MAXIMUM_PDU_SIZE);
     let body_len = (n - 6) as u32;
+    let max = match c.strict_delta {
+        Some(d) => (body_len as i64 + d as i64).clamp(MINIMUM_PDU_SIZE as i64, MAXIMUM_PDU_SIZE as i64) as u32,
+        None => c.strict_max.clamp(MINIMUM_PDU_SIZE, MAXIMUM_PDU_SIZE),
+    };
+    if body_len > max && body_len - max <= 8 {
+        obs.class("just-above-max");
+    }
     let mut cur = Cursor::new(&out[..]);
     let strict = read_pdu(&mut cur, max, true);
     if body_len > max {
@@ -150,8 +159,13 @@ fn check(c: &Case, obs: &mut Obs) {
 }
 
 pub fn strategy() -> BoxedStrategy<Case> {
-    (prop_oneof![9 => pdu(false), 1 => pdu(true)], proptest::collection::vec(any::<u8>(), 0..12), prop_oneof![Just(MINIMUM_PDU_SIZE), Just(16378u32), any::<u32>()])
-        .prop_map(|(pdu, trailing, strict_max)| Case { pdu, trailing, strict_max })
+    (
+        prop_oneof![9 => pdu(false), 1 => pdu(true)],
+        proptest::collection::vec(any::<u8>(), 0..12),
+        prop_oneof![Just(MINIMUM_PDU_SIZE), Just(16378u32), any::<u32>()],
+        proptest::option::weighted(0.5, -8i32..=8),
+    )
+        .prop_map(|(pdu, trailing, strict_max, strict_delta)| Case { pdu, trailing, strict_max, strict_delta })
         .boxed()
 }
 
